@@ -139,6 +139,26 @@ def quantity_fmt(ctx, config, U, amt):
                "precision forwarded exactly when given" % (show_pieces(pieces), ":.prec" if asg[P] else ""), where)
 
 
+def width_per_character(ctx, config, w):
+    """`width applies to the text as a whole`: Formatter::pad_integral accounts
+    the width per BYTE of the buffer it is given (it is meant for ASCII
+    digits); Quantity::fmt hands it the amount text *and the unit symbol*, so
+    the padding is short by one column per extra byte of a non-ASCII symbol."""
+    outs, b, _ = G.summarize(w.U, G.QTY + "fmt", set())
+    uses = any(k == "val" and t[0] == "app" and t[1] == PAD_INTEGRAL for (g, k, t) in outs)
+    if not uses:
+        ctx.ob("width-per-character", "Quantity::fmt", True, "")
+        return
+    bad = []
+    for q in w.qtypes:
+        for v, sym in q.tables.get("symbol", {}).items():
+            if sym[0] == "str" and not sym[1].isascii():
+                bad.append("%s::%s %r" % (q.name, v, sym[1]))
+    ctx.ob("width-per-character", "Quantity::fmt", not bad,
+           "Quantity::fmt pads through Formatter::pad_integral, which counts bytes: for the %d units with a non-ASCII symbol (%s, ...) a requested width is "
+           "applied one column short per extra byte (e.g. format!(\"{:>12}\", 29.35 cm²) yields 11 characters)" % (len(bad), ", ".join(bad[:6])), b["span"])
+
+
 def unit_fmt(ctx, config, U):
     outs, b, _ = G.summarize(U, G.UNIT + "fmt", set())
     self_, form = S.P(0, "self"), S.P(1, "form")
@@ -259,12 +279,27 @@ def symbol_resolves(ctx, config, w):
     return n
 
 
+def symbol_is_declared(ctx, config, w):
+    """What is displayed as the unit is the DECLARED symbol (all three code
+    paths of the macro, every instance in the workspace)."""
+    from . import decls as D
+    for d, q in w.pairs:
+        for u in d.units:
+            var = D.upper_camel(u.ident)
+            if var in q.tables["symbol"]:
+                ctx.ob("symbol-is-declared", "%s/%s/%s" % (config, q.path, u.ident), q.tables["symbol"][var] == ("str", u.symbol),
+                       "unit %s displays as %r, declared symbol is %r" % (u.ident, q.tables["symbol"][var], u.symbol), "%s:%d" % (d.file, u.line), nontrivial=False)
+
+
 def run(ctx):
     for config in ("f64-all", "dec-all"):
         w = ws.load(config)
         ctx.configs.append(config)
         amt = ws.amount_type(config)
         symbol_resolves(ctx, config, w)
+        symbol_is_declared(ctx, config, w)
+        if config == "f64-all":
+            width_per_character(ctx, config, w)
         quantity_fmt(ctx, config, w.U, amt)
         unit_fmt(ctx, config, w.U)
         rate_fmt(ctx, config, w.U)
